@@ -83,6 +83,14 @@ def ref_parse(body, boundary, charset):
     mk = b"--" + boundary
     if not boundary or any(c in boundary for c in b"\r\n") or boundary[-1:] in (b" ", b"\t", b"\x0b", b"\x0c"):
         return None
+    try:
+        b"".decode(charset)
+    except LookupError:
+        # the label names no text encoding (unknown, or a bytes-to-bytes / str-to-str codec such as hex, base64,
+        # rot13, zlib): the text of the form is its Latin-1 reading (baize's documented fallback, /repo b56c03c)
+        charset = "latin-1"
+    except Exception:  # noqa
+        return None
     i = body.find(mk)
     if i < 0:
         return None
@@ -203,6 +211,9 @@ def r_items(items, read):
     for name, val in items:
         if isinstance(val, str):
             out.append("f:%s:%s" % (r_name(name), enc(val)))
+        elif isinstance(val, (bytes, bytearray)) or not hasattr(val, "filename"):
+            # neither text nor an upload: rendered as what it is (never equal to an expected item)
+            out.append("?%s:%s:%s" % (type(val).__name__, r_name(name), enc(bytes(val)) if isinstance(val, (bytes, bytearray)) else "-"))
         else:
             out.append("x:%s:%s:%s:%s" % (r_name(name), enc(val.filename), r_headers(val.headers), enc(read(val))))
     return "|".join(out) if out else "-"
@@ -389,7 +400,7 @@ def run_stream(boundary, charset, max_parts, max_mem, chunks, is_async, minimal=
     else:
         text = r_items(items, lambda f: f.read())
         for _, v in items:
-            if not isinstance(v, str):
+            if not isinstance(v, str) and hasattr(v, "close"):
                 v.close()
     return "ok %s held=%d dheld=%d" % (text, _Rec.held, _Rec.dheld)
 
@@ -415,7 +426,10 @@ def run_wsgi_form(content_type, chunks):
     except Exception as exc:  # noqa
         return exc_name(exc)
     text = r_items(form.multi_items(), lambda f: f.read())
-    req.close()
+    try:
+        req.close()
+    except Exception as exc:  # noqa
+        return "ok %s !close:%s" % (text, exc_name(exc))
     return "ok " + text
 
 
@@ -535,7 +549,7 @@ NAMES = ["rate 100%22", "report%0A50", "%0D", "a%2522b", "a", "b", "field", "nam
          "n:1", "*",
          # characters that str.splitlines / str.strip treat specially but that are NOT line breaks of the format
          "a\x0cb", "t\x1cu", "n\x85m", "x\u2028y", "v\x0bw", "p\u2029q"]
-FILENAMES = ["report 50%0A.txt", "q%22uote%22.bin", "f.txt", "a b.bin", "é.png", "semi;colon.txt", "", "中.bin", "C:fake", "x=y",
+FILENAMES = ["dir/name.bin", "/abs/path.txt", "../up.txt", "a/b/", "report 50%0A.txt", "q%22uote%22.bin", "f.txt", "a b.bin", "é.png", "semi;colon.txt", "", "中.bin", "C:fake", "x=y",
              "ff\x0c.bin", "ls\u2028.txt", "nel\x85.dat", "fs\x1c"]
 EXTRA = [("Content-Type", "text/plain"), ("Content-Type", "application/octet-stream"), ("X-Custom", "a: b; c"),
          ("Content-Transfer-Encoding", "binary"), ("X-Empty-Ish", "0")]
